@@ -15,6 +15,7 @@ CONSTANTS
   ConcGrid <- G_None
   YieldK <- K_Q
   TerminalQueries = TRUE
+  AllowEmpty = FALSE
 
 INVARIANT WorkspaceWellFormed
 INVARIANT SplitPartitions
